@@ -206,6 +206,17 @@ pub fn run(ctx: &Ctx) -> Report {
             rep.evaluations += 1;
             rep.distinct(&c);
             rep.count("numeric_extremes", 1);
+            // first in a child process: an allocation failure or a stack overflow aborts the
+            // process and cannot be caught in this one
+            let exe = std::env::current_exe().unwrap();
+            match std::process::Command::new(exe).args(["probe", "decode-hex", &crate::util::hex(&c)]).output() {
+                Ok(o) if o.status.code().is_none() => {
+                    rep.violation("C16:process-abort:numeric-extreme", format!("the decoder process was killed ({:?}) by input {}", o.status, show(&c)), json!({"input": show(&c)}));
+                    continue;
+                }
+                Ok(_) => rep.count("numeric_extremes_probed_in_child", 1),
+                Err(e) => { rep.inconclusive(format!("cannot spawn probe: {}", e)); continue; }
+            }
             let v = judge(&c);
             record(&mut rep, &c, v, "numeric-extreme");
         }
@@ -232,6 +243,13 @@ pub fn run(ctx: &Ctx) -> Report {
         }
     }
     rep
+}
+
+pub fn probe_decode_hex(args: &[String]) {
+    let h = args[1].as_bytes();
+    let v: Vec<u8> = h.chunks(2).map(|p| u8::from_str_radix(std::str::from_utf8(p).unwrap(), 16).unwrap()).collect();
+    let r = std::panic::catch_unwind(|| BDecoder::from_array(&v).is_ok());
+    std::process::exit(if r.is_ok() { 0 } else { 3 });
 }
 
 pub fn probe_deep(args: &[String]) {
